@@ -168,6 +168,9 @@ Judge ==
          /\ ((dev' = {} => C04_Withheld(L, L.failed, okDirs', T, xs.dst)) \/ Say("VERDICT", "C04", "Withheld"))
          /\ ((dev' = {} => C04_Complete(L, T)) \/ Say("VERDICT", "C04", "RetryCompletes"))
          /\ ((xs.verify => \A o \in xs.new : T[xs.dst][o] \notin {"bad_u", "bad_p"}) \/ Say("VERDICT", "C07", "VerifyRetainsMismatch"))
+         \* (C01: a tampered source excuses the destination of an ordinary transfer, not of a verifying one - once it has
+         \* ended, nothing it brought is filed under a name that does not match)
+         /\ ((xs.verify => \A o \in xs.new : T[xs.dst][o] \notin {"bad_u", "bad_p"}) \/ Say("VERDICT", "C01", "VerifiedTransferFiledMismatch"))
     \* an upload of something the destination already had (C11: not re-sent)
     /\ (op = "Put" => (a.x \notin xs.pre \/ Say("VERDICT", "C11", "Resent")))
     \* the source is never written during a transfer
